@@ -94,7 +94,7 @@ def seed_batch(item: tuple) -> dict:
             fn = os.path.join(work, f"specs-{fmt}-{seed}.json")
             with open(fn, "w") as f:
                 json.dump(sp, f)
-            env = dict(os.environ, PYTHONHASHSEED=str(seed), PYTHONPATH=f"{VERIF}:/repo")
+            env = dict(os.environ, PYTHONHASHSEED=str(seed), PYTHONPATH=f"{VERIF}:{drivers.REPO}")
             p = subprocess.run([sys.executable, "-m", "mc.c10_runner", fn], env=env, capture_output=True, text=True,
                                timeout=1800, cwd=VERIF)
             if p.returncode != 0:
